@@ -217,19 +217,27 @@ class AsyncDatagramServer(_transports.AsyncBaseTransport, Generic[_T_Request, _T
         default_context: contextvars.Context,
     ) -> None:
         client_data.mark_running()
+        cancelled: bool = False
         try:
             await self.__client_coroutine_inner_loop(
                 request_handler_generator=datagram_received_cb(client_ctx),
                 client_data=client_data,
             )
+        except client_data.backend.get_cancelled_exc_class():
+            cancelled = True
+            raise
         finally:
-            self.__on_client_coroutine_task_done(
-                datagram_received_cb=datagram_received_cb,
-                client_ctx=client_ctx,
-                client_data=client_data,
-                task_group=task_group,
-                default_context=default_context,
-            )
+            if cancelled:
+                # The task group is shutting down and refuses new tasks: do not try to handle the queued datagrams.
+                client_data.mark_done()
+            else:
+                self.__on_client_coroutine_task_done(
+                    datagram_received_cb=datagram_received_cb,
+                    client_ctx=client_ctx,
+                    client_data=client_data,
+                    task_group=task_group,
+                    default_context=default_context,
+                )
 
     async def __client_coroutine_inner_loop(
         self,
